@@ -53,6 +53,14 @@ def main():
     if a.what == 'selftest':
         from . import selftest
         sys.exit(selftest.main())
+    if a.what == 'determinism':
+        rc = 0
+        for pid in ([a.arg] if a.arg else sorted(reg)):
+            chk = reg[pid]()
+            if not a.no_build:
+                build(chk.flavours)
+            rc = max(rc, runner.determinism(chk, n=int(a.budget or 300), jobs=a.jobs or 16, seed=a.seed))
+        sys.exit(rc)
     if a.what not in reg:
         print('unknown property %s (known: %s)' % (a.what, ' '.join(sorted(reg))))
         sys.exit(2)
